@@ -37,32 +37,45 @@ theorem C11_sites_complete : genCfg.SitesComplete := by decide
     (`$Recursion_is_not_allowed`; identifiers resolve to preceding declarations only) and every expression:
     if evaluating `e` may write some variable -- directly, in a sub-expression, through the body of a called function in any
     statement form (local initialisers included) and through any chain of calls, or through a non-constant reference
-    parameter -- then `changes_any_variable()` is true for `e` under the `changes` sets the type checker computes. -/
-theorem C11_sound_general (cfg : Cfg) (hc : cfg.WritesComplete) (hx : cfg.CallsExact) (P : List FunDecl)
-    (hd : declaredBeforeUse P = true) (e : Expr) (h : MayWrite P e) : changesAny cfg (analyse cfg P) e = true := by
+    parameter -- then `changes_any_variable()` is true for `e` under the `changes` sets the type checker computes.
+    `dot` selects the spec without (`false`) or with (`true`) calls `P.f()` of process functions; the latter needs the
+    call case to resolve such callees. -/
+theorem C11_sound_general (cfg : Cfg) (hc : cfg.WritesComplete) (hx : cfg.CallsExact) (dot : Bool)
+    (hdot : dot = true → cfg.writeCallResolvesDot = true) (P : List FunDecl)
+    (hd : declaredBeforeUse P = true) (e : Expr) (h : MayWrite dot P e) : changesAny cfg (analyse cfg P) e = true := by
   obtain ⟨s, hs⟩ := h
-  have hm : s ∈ collectWrites cfg (analyse cfg P) e := writes_sound hc (analyse_consistent hx P hd) hs
+  have hm : s ∈ collectWrites cfg (analyse cfg P) e := writes_sound hc hdot (analyse_consistent hx P hd) hs
   unfold changesAny
   cases hl : collectWrites cfg (analyse cfg P) e with
   | nil => rw [hl] at hm; cases hm
   | cons a as => simp
 
-/-- C11 for the current source (full strength). -/
-theorem C11_sound (P : List FunDecl) (hd : declaredBeforeUse P = true) (e : Expr) (h : MayWrite P e) :
+/-- C11 for the current source, every expression whose calls name their function by an identifier (all contexts of the
+    property except queries that call a function of a process as `P.f()`, see `C11_witness_process_dot`).
+    Full statement: `C11_sound_full_of_resolved` without its premise; not provable today because
+    `collect_possible_writes` looks up `get(0).get_symbol()`, which for the callee `P.f` is the process `P`. -/
+theorem C11_sound_partial (P : List FunDecl) (hd : declaredBeforeUse P = true) (e : Expr) (h : MayWrite false P e) :
     changesAny genCfg (analyse genCfg P) e = true :=
-  C11_sound_general genCfg C11_tables_complete C11_calls_exact P hd e h
+  C11_sound_general genCfg C11_tables_complete C11_calls_exact false (fun h => by cases h) P hd e h
+
+/-- C11 at full strength (process-dot calls included) for a source whose call case resolves `P.f` callees
+    (proposed_fixes/C11-process-dot-call.diff sets the premise; today it is false and `c11Exceptions` is non-empty). -/
+theorem C11_sound_full_of_resolved (hfix : genCfg.writeCallResolvesDot = true) (P : List FunDecl)
+    (hd : declaredBeforeUse P = true) (e : Expr) (h : MayWrite true P e) : changesAny genCfg (analyse genCfg P) e = true :=
+  C11_sound_general genCfg C11_tables_complete C11_calls_exact true (fun _ => hfix) P hd e h
 
 /-- the written variable itself is in the computed set (what `changes_variable(set)` consults) -/
-theorem C11_sound_symbol (P : List FunDecl) (hd : declaredBeforeUse P = true) (e : Expr) (s : Sym) (h : Writes P e s) :
+theorem C11_sound_symbol (P : List FunDecl) (hd : declaredBeforeUse P = true) (e : Expr) (s : Sym) (h : Writes false P e s) :
     s ∈ collectWrites genCfg (analyse genCfg P) e :=
-  writes_sound C11_tables_complete (analyse_consistent C11_calls_exact P hd) h
+  writes_sound C11_tables_complete (fun h => by cases h) (analyse_consistent C11_calls_exact P hd) h
 
 /-- per function: a non-local variable written anywhere in the body is in `function_t::changes` -/
 theorem C11_function_changes (P : List FunDecl) (hd : declaredBeforeUse P = true) (fd : FunDecl) (hfd : fd ∈ P) (b : Expr)
-    (hb : b ∈ exprsOf fd.body) (s : Sym) (h : Writes P b s) (hl : s ∉ fd.locals) (hp : s ∉ fd.params) :
+    (hb : b ∈ exprsOf fd.body) (s : Sym) (h : Writes false P b s) (hl : s ∉ fd.locals) (hp : s ∉ fd.params) :
     ∃ fi, (analyse genCfg P).find fd.name = some fi ∧ s ∈ fi.changes := by
   have hcons := analyse_consistent C11_calls_exact (cfg := genCfg) P hd
-  exact ⟨_, hcons fd hfd, mem_funInfo_changes C11_tables_complete hb (writes_sound C11_tables_complete hcons h) hl hp⟩
+  exact ⟨_, hcons fd hfd, mem_funInfo_changes C11_tables_complete hb
+    (writes_sound C11_tables_complete (fun h => by cases h) hcons h) hl hp⟩
 
 /-! ### the hypotheses are satisfiable: a writer hidden in a do-while inside a for-each, called through a chain and through
     a reference parameter -/
@@ -83,19 +96,37 @@ def demoP : List FunDecl := [demoWr, demoChain, demoViaRef]
 example : declaredBeforeUse demoP = true := by decide
 
 /-- `chain() == 0` may write `w` -/
-example : MayWrite demoP (.node .kEQ 0 [demoCall 3 [], .node .kCONSTANT 0 []]) :=
+example : MayWrite false demoP (.node .kEQ 0 [demoCall 3 [], .node .kCONSTANT 0 []]) :=
   ⟨1, .sub (e := demoCall 3 []) (by simp)
-    (.callBody (fd := demoChain) (b := demoCall 2 []) (by decide) (by simp [demoP]) rfl (by simp [demoChain, exprsOf, exprsOfL])
-      (.callBody (fd := demoWr) (b := demoAssign 1) (by decide) (by simp [demoP]) rfl (by simp [demoWr, exprsOf, exprsOfL])
+    (.callBody (fd := demoChain) (b := demoCall 2 []) (by decide) (.ident 3 []) (by simp [demoP]) rfl (by simp [demoChain, exprsOf, exprsOfL])
+      (.callBody (fd := demoWr) (b := demoAssign 1) (by decide) (.ident 2 []) (by simp [demoP]) rfl (by simp [demoWr, exprsOf, exprsOfL])
         (.direct (by decide) (.ident 1 [])) (by decide) (by decide))
       (by decide) (by decide))⟩
 
 /-- `viaRef(w)` may write `w` -/
-example : MayWrite demoP (demoCall 4 [.node .kIDENTIFIER 1 []]) :=
-  ⟨1, .callRef (fd := demoViaRef) (a := .node .kIDENTIFIER 1 []) (p := 5) (b := demoAssign 5) (by decide) (by simp [demoP]) rfl
+example : MayWrite false demoP (demoCall 4 [.node .kIDENTIFIER 1 []]) :=
+  ⟨1, .callRef (fd := demoViaRef) (a := .node .kIDENTIFIER 1 []) (p := 5) (b := demoAssign 5) (by decide) (.ident 4 []) (by simp [demoP]) rfl
     (by simp [demoViaRef]) (by simp [demoViaRef, exprsOf, exprsOfL]) (.direct (by decide) (.ident 5 [])) (.ident 1 [])⟩
 
 example : changesAny genCfg (analyse genCfg demoP) (.node .kEQ 0 [demoCall 3 [], .node .kCONSTANT 0 []]) = true := by decide
+
+/-! ## exception set: calls of process functions in queries -/
+
+/-- witness of `call-through-process-dot`: template function `twr` (symbol 2) writes the template variable `tw`
+    (symbol 1); the query expression `P.twr()` (process `P` = symbol 3) may write `tw`, yet `changes_any_variable()` is
+    false whenever the call case does not resolve `P.f` callees (true of the current source; vacuous after the repair). -/
+def witnessDotP : List FunDecl :=
+  [{ name := 2, params := [], refNonConst := [], locals := [], body := .block [] [.exprS (demoAssign 1), .returnS (.node .kCONSTANT 0 [])] }]
+def witnessDotCall : Expr := .node .kFUN_CALL 0 [.node .kDOT 2 [.node .kIDENTIFIER 3 []]]
+theorem C11_witness_process_dot :
+    MayWrite true witnessDotP witnessDotCall ∧
+    (genCfg.writeCallResolvesDot = false → changesAny genCfg (analyse genCfg witnessDotP) witnessDotCall = false) :=
+  ⟨⟨1, .callBody (fd := witnessDotP[0]) (b := demoAssign 1) (by decide) (.processDot 2 _ rfl (by decide)) (by simp [witnessDotP]) rfl
+        (by simp [witnessDotP, exprsOf, exprsOfL]) (.direct (by decide) (.ident 1 [])) (by decide) (by decide)⟩,
+   by decide⟩
+
+/-- the computed exception set of the current source contains nothing but that shape -/
+theorem C11_exceptions_today : ∀ x ∈ c11Exceptions genCfg, x ∈ ["call-through-process-dot"] := by decide
 
 /-! ## the twin: nothing that cannot write is rejected for writing -/
 
